@@ -2528,7 +2528,8 @@ class OMPLoopDirective(OMPRegionDirective):
         if self._collapse:
             cursor = self.dir_body.children[0]
             for depth in range(self._collapse):
-                if not isinstance(cursor, Loop):
+                if (len(cursor.parent.children) != 1 or
+                        not isinstance(cursor, Loop)):
                     raise GenerationError(
                         f"OMPLoopDirective must have as many immediately "
                         f"nested loops as the collapse clause specifies but "
